@@ -569,4 +569,26 @@ theorem wrap_line_fits_tight (cw : Char → Nat) (hard : Nat) (line : Str) (hfit
 
 example : tightCost (fun _ => 1) (findWords "aaa bbb\n".toList) = 7 ∧ lineCost (fun _ => 1) "aaa bbb\n".toList = 8 := by decide
 
+/-- **`textwrap::wrap` is the identity on text every line of which fits, tight form**: any characters, any number of
+lines; a line's terminator and the blanks in front of it do not count -/
+theorem wrap_fits_identity_tight (cw : Char → Nat) (content : Str) (hard : Nat)
+    (hfit : ∀ line ∈ splitInclusive content, tightCost cw (findWords line) ≤ hard) :
+    wrap cw content hard = content := by
+  have aux : ∀ lines : List Str, (∀ l ∈ lines, tightCost cw (findWords l) ≤ hard) →
+      (wrapLines cw hard lines).flatten = lines.flatten := by
+    intro lines
+    induction lines with
+    | nil => intro _; simp [wrapLines]
+    | cons l ls ih =>
+      intro h
+      simp only [wrapLines, List.flatten_append, List.flatten_cons]
+      rw [wrap_line_fits_tight cw hard l (h l List.mem_cons_self), findWords_flatten,
+        ih (fun x hx => h x (List.mem_cons_of_mem _ hx))]
+  unfold wrap
+  rw [aux _ hfit, splitInclusive_flatten]
+
+/-- non-vacuity: two terminated lines of exactly 7 columns at width 7 -/
+example : (∀ line ∈ splitInclusive "aaa bbb\nccc ddd\n".toList, tightCost (fun _ => 1) (findWords line) ≤ 7) ∧
+    wrap (fun _ => 1) "aaa bbb\nccc ddd\n".toList 7 = "aaa bbb\nccc ddd\n".toList := by decide
+
 end Clap.C20
